@@ -447,6 +447,22 @@ fn build_cases(quick: bool) -> Vec<Case> {
         v.push(Case { m128, blocks: vec![b1.clone()], requests: reqs(2), pokes: vec![] });
         v.push(Case { m128, blocks: vec![], requests: reqs(1), pokes: vec![] });
         v.push(Case { m128, blocks: vec![], requests: vec![LdRequest { a: 0xFF, load: false, ix: 0x9000, de: 5 }], pokes: vec![] });
+        // short blocks after a block longer than the 128-byte read buffer
+        let long = block_of(302, 0xFF, true);
+        let short1 = block_of(12, 0xFF, true);
+        let long2 = block_of(204, 0xFF, true);
+        let short2 = block_of(5, 0xFF, true);
+        v.push(Case {
+            m128,
+            blocks: vec![long.clone(), short1.clone(), long2.clone(), short2.clone()],
+            requests: vec![
+                LdRequest { a: 0xFF, load: true, ix: 0x9000, de: 300 },
+                LdRequest { a: 0xFF, load: true, ix: 0x9200, de: 10 },
+                LdRequest { a: 0xFF, load: true, ix: 0x9300, de: 202 },
+                LdRequest { a: 0xFF, load: true, ix: 0x9500, de: 3 },
+            ],
+            pokes: vec![],
+        });
         // wrong flag first, then retry: the mismatching block is consumed
         v.push(Case { m128, blocks: vec![b1.clone(), b2.clone()], requests: vec![LdRequest { a: 0xFF, load: true, ix: 0x9000, de: 17 }, LdRequest { a: 0xFF, load: true, ix: 0x9100, de: 128 }, LdRequest { a: 0xFF, load: true, ix: 0x9100, de: 128 }], pokes: vec![] });
     }
@@ -531,10 +547,21 @@ pub fn realtime_vs_fast(ctx: &Ctx) {
             }
         }
     }
+    for m128 in [false, true] {
+        // a short block after a block longer than the 128-byte read buffer, played straight through
+        let long = block_of(140, 0xFF, true);
+        let short = block_of(6, 0xFF, true);
+        cases.push(Case {
+            m128,
+            blocks: vec![long, short],
+            requests: vec![LdRequest { a: 0xFF, load: true, ix: 0x9000, de: 138 }, LdRequest { a: 0xFF, load: true, ix: 0x9200, de: 4 }],
+            pokes: vec![],
+        });
+    }
     let n = cases.len();
     par_for(n, 1, |i| {
-        let d = realtime_case(ctx, &cases[i], false);
-        let f = run_fast_case(ctx, &cases[i], false);
+        let d = ctx.guard("real-time load", case_json(&cases[i], "realtime"), || realtime_case(ctx, &cases[i], false)).unwrap_or(0);
+        let f = ctx.guard("fast load", case_json(&cases[i], "realtime"), || run_fast_case(ctx, &cases[i], false)).unwrap_or(0);
         if d != 0 && f != 0 && d != f {
             ctx.violation("C11:realtime-vs-fast:differ", "real-time load and fast load of the same requests give different IX/DE/carry", case_json(&cases[i], "realtime"));
         }
@@ -575,7 +602,7 @@ pub fn run(tier: Tier, seed: u64, replay: Option<String>) -> i32 {
     let cases = build_cases(quick);
     let n = cases.len();
     par_for(n, 4, |i| {
-        let d = run_fast_case(&ctx, &cases[i], false);
+        let d = ctx.guard("fast-load case", case_json(&cases[i], "fast"), || run_fast_case(&ctx, &cases[i], false)).unwrap_or(0);
         ctx.outcome(d);
         ctx.add_eval(1);
         ctx.add_transitions(cases[i].requests.len() as u64);
